@@ -4,6 +4,9 @@
 import json, os, re, sys
 ROOT = os.path.dirname(os.path.dirname(os.path.abspath(__file__)))
 NEEDS = {
+ "C19-A": ("amgcl/io/binary.hpp", "read_crs seeks into the value block of a row range with the column-index size instead of the value size", "binary CRS file, a row range with row_beg > 0 and at least one stored entry before it, sizeof(Col) != sizeof(Val) (e.g. int columns with 8-byte values)"),
+ "C19-B": ("amgcl/io/mm.hpp", "the mirrored entry (j,i) of a symmetric MatrixMarket file is only added when row i itself is in the requested row range", "a 'coordinate ... symmetric' file read by a proper row range, with a stored off-diagonal entry (i,j) whose row i is outside and whose column j is inside the range"),
+
  "C01-A": ("amgcl/solver/bicgstabl.hpp", "BiCGStab(L) reliable update no longer re-bases the reference right-hand side B after flushing X into x",
            "bicgstabl with the non-default delta > 0; a flush (zeta < delta*zeta0) followed by a later residual refresh inside one solve"),
  "C01-B": ("amgcl/solver/bicgstab.hpp", "left-preconditioned BiCGStab starts from P*rhs instead of P*(rhs - A x0)", "bicgstab with pside=left and a non-zero initial guess"),
@@ -23,6 +26,18 @@ NEEDS = {
  "C08-B": ("amgcl/backend/builtin.hpp", "diagonal(A, invert=true) leaves a stored zero diagonal entry zero instead of the identity", "invert=true and an explicitly stored zero diagonal entry"),
  "C09-A": ("amgcl/relaxation/detail/ilu_solve.hpp", "level computation of the upper triangular solve skips row 0", "level-scheduled ILU solve (>= 4 threads or solve.serial=false), row 0 with an entry right of the diagonal"),
  "C09-B": ("amgcl/detail/spgemm.hpp", "row-merge SpGEMM copies B's row without the coefficient when the row of A has one entry", "more than 16 threads (row-merge algorithm), a single-entry row of A with a value other than 1"),
+ "C10-A": ("amgcl/coarsening/ruge_stuben.hpp", "connect() no longer initialises the strength flags of rows without a negative off-diagonal (re-introduces the defect fixed by d83d7e2)", "ruge_stuben coarsening, a row whose off-diagonals are all positive (or a diagonal-only row), non-zero heap contents"),
+ "C10-B": ("amgcl/util.hpp", "circular_buffer::push_back loses the wrap-around of its start index (used only by LGMRES)", "LGMRES storing more than 2K augmentation vectors without a reset: small K/M with several restart cycles, or always_reset=false and repeated solves"),
+ "C11-A": ("amgcl/mpi/distributed_matrix.hpp", "an explicit local column count of 0 is treated as 'not specified'", "strip constructor with an explicit column count on a rank that owns rows but no columns (rectangular operator or differing row/column partitions)"),
+ "C11-B": ("amgcl/mpi/distributed_matrix.hpp", "mul() skips the local SpMV (which also applies beta) when the diagonal block has no stored entries", "a rank whose own-rows x own-columns block is structurally empty, beta != 1 and non-zero previous content of y"),
+ "C12-A": ("amgcl/mpi/distributed_matrix.hpp", "one accumulate site of the distributed product multiplies the value blocks in the wrong order", "block values with non-commuting blocks, >= 2 ranks, a row with two contributions to the same remote column (smoothed aggregation across a rank boundary)"),
+ "C12-B": ("amgcl/mpi/coarsening/pmis.hpp", "the 'lonely node' test of the distributed aggregation ignores remote strong connections", "a rank owning an unknown with no strong neighbour on its own rank (e.g. a one-row rank) none of whose remote neighbours becomes a root"),
+ "C17-A": ("amgcl/amg.hpp", "amg::rebuild(M) no longer sorts the rows of the user matrix", "allow_rebuild, an existing hierarchy, rebuild() with unsorted rows and an order-sensitive smoother (ilu0)"),
+ "C17-B": ("amgcl/adapter/block_matrix.hpp", "the block adapter does not zero the current block when advancing (same site as C13-A)", "structurally incomplete blocks after the first block of a block row"),
+ "C18-A": ("amgcl/preconditioner/schur_pressure_correction.hpp", "the matrix-free Schur operator applies the adjust_p=1 diagonal term with coefficient 1 instead of alpha", "adjust_p = 1 and the operator applied with alpha != 1 to a non-zero vector (a pressure solver that recomputes true residuals)"),
+ "C18-B": ("amgcl/preconditioner/cpr.hpp", "update_transfer for block values inverts the diagonal block instead of its adjoint", "block-valued CPR, construct then partial_update(K) with update_transfer_ops, non-symmetric diagonal blocks, an inexact global stage"),
+ "C20-A": ("lib/amgcl.cpp", "amgcl_precond_apply clears x and runs one cycle instead of calling apply()", "a stand-alone preconditioner handle with pre_cycles != 1"),
+ "C20-B": ("lib/amgcl.cpp", "amgcl_params_seti appends a duplicate key instead of overwriting", "the same integer parameter set twice on one parameter handle with different values"),
  "C13-A": ("amgcl/adapter/block_matrix.hpp", "block_matrix adapter does not zero the current block when advancing to the next block column", "a block row with >= 2 block columns and a structurally incomplete block that is not the first of its row"),
  "C13-B": ("amgcl/make_block_solver.hpp", "three-argument make_block_solver::operator() ignores the caller's matrix and uses the stored one", "three-argument call with a matrix different from the one used for setup (e.g. mixed precision with non-float-exact coefficients)"),
  "C14-A": ("amgcl/util.hpp", "check_params() reports only unknown LEAF keys", "an unknown key that has children (a misspelled section such as precond.relaxation.type)"),
